@@ -113,6 +113,12 @@ def sizing_paths(ctx, cname):
         is_price = lambda c: c.startswith('BacktestDataHandler.get_asset_latest_')
         all_loops = loops
         loops = [l for l in all_loops if has(l, is_fee)]
+        from_terms = False
+        if p.outcome == 'return' and not loops:
+            # the fee of every asset was estimated in a comprehension (fused by the engine into the loop that prices and sizes): the estimate is then read off
+            # the quantity formula itself, where the call appears as a term
+            loops = [l for l in all_loops if has(l, is_price)]
+            from_terms = True
         if p.outcome != 'return' or len(loops) != 1:
             continue
         lp = loops[0]
@@ -143,6 +149,14 @@ def sizing_paths(ctx, cname):
             q = None
             if len(ws) == 1 and ws[0].value[0] == 'dict':
                 q = dict(ws[0].value[1]).get(('str', 'quantity'))
+            if from_terms and not fee and q is not None:
+                from ..symex import Ev
+                seen_ = []
+                for s_ in T.subterms(q):
+                    if s_[0] == 'call' and s_[1][0] == 'fn' and all(is_fee(n_) for n_ in s_[1][1].split('|')) and len(s_[2]) >= 4 and s_ not in seen_:
+                        seen_.append(s_)
+                        fee.append(Ev('call', callee=s_[1][1].split('|'), args={'asset': s_[2][1], 'quantity': s_[2][2], 'consideration': s_[2][3]}, result=s_, recv=s_[2][0],
+                                      site=lp.site, fn=qn, how='term', layer=1, kwargs=dict(s_[3])))
             bodies.append({'path': b, 'quantity': q, 'fee': fee, 'price': price, 'writes': ws})
         fresh = None
         if container is not None:
